@@ -7,6 +7,7 @@ from ..gen import maps as M
 from ..translate import labelfns as tr
 from ..translate import arith2
 from . import c09_keyopts
+from . import c09_twoform
 from ..translate import hashmapsrc as hmsrc
 from ..translate import hashmapglue as hmglue
 
@@ -400,6 +401,7 @@ def run(ctx):
     odd_key_types(ctx)
     c09_keyopts.key_options(ctx)        # keys through the key_serializer= / key_deserializer= options
     c09_keyopts.string_key_spellings(ctx)   # every spelling int(s, 2) admits: sign, blanks, underscores, 0b
+    c09_twoform.two_form_keys(ctx, run_case)    # keys well-formed in two key forms at once: filed under the declared reading only
     # --- widths 1..3 exhaustive over key sets; insertion orders: all (w<=2, and w=3 in thorough) or 4 per set
     for n in (1, 2, 3):
         universe = list(range(1 << n))
@@ -527,7 +529,9 @@ def odd_key_types(ctx):
 
 def replay(ctx, payload):
     inp = payload.get('input') or {}
-    if 'ins' in inp:
+    if inp.get('kind') == 'twoform':
+        c09_twoform.replay_case(ctx, inp)
+    elif 'ins' in inp:
         run_case(ctx, inp['n'], inp['vkind'], [tuple(x) for x in inp['ins']], [(k, b, tuple(r)) for k, b, r in inp.get('base', [])],
                  inp.get('tag', 'replay'))
     elif 'key_serializer' in inp or 'history' in inp:
